@@ -1,6 +1,7 @@
 import CfbVerif.Props.C01
 import CfbVerif.Props.C06
 import CfbVerif.Dir.Slots
+import CfbVerif.Phys.Content
 /-!
 # C07 — open handles stay bound to their stream and never touch other objects
 
@@ -92,5 +93,48 @@ example :
     let t := Tree.node (.node .leaf (e 2 99) .leaf .leaf) (e 1 109) .leaf (.node .leaf (e 3 120) .leaf .leaf)
     ((t.remove [109]).find? [99]).map (·.1.slot) = some 2 ∧ ((t.remove [109]).find? [120]).map (·.1.slot) = some 3 := by
   decide +kernel
+
+/-! ### (iii) at the sector level: the chain layer (`Phys/Content.lean`) -/
+
+/-- **the chain layer stores and returns the bytes**: writing `bs` at offset `off` inside a regular
+chain (the `write_all` loop over `Chain::write`, one sector at a time) and reading the same range
+back (the `read_exact` loop over `Chain::read`) returns `bs`; the chain's bytes are the old ones
+with exactly `[off, off + len)` replaced; no sector outside the chain is touched.  (For every state
+whose sectors have the sector size — `SS`, every reachable state — and every duplicate-free sector
+list — every owner's chain, `C03_owner_walks_succeed`.) -/
+theorem C07_chain_write_read (kind : Phys.Init) (p : Phys.P) (ids : List Nat) (off : Nat) (bs : Phys.Bytes)
+    (ss : Phys.SS p) (hp : Phys.Present p ids) (nd : ids.Nodup) (hlen : off + bs.length ≤ ids.length * p.S) :
+    ∃ p', Phys.chainWrite kind (bs.length + 2) p ids off bs = .ok (p', ids) ∧
+      Phys.chainRead (bs.length + 2) p' ids off bs.length [] = .ok bs ∧
+      Phys.chainBytes p' ids = (Phys.chainBytes p ids).take off ++ bs ++ (Phys.chainBytes p ids).drop (off + bs.length) ∧
+      (∀ i, i ∉ ids → p'.sectors[i]? = p.sectors[i]?) :=
+  Phys.chainWrite_read kind p ids off bs ss hp nd hlen
+
+/-- **… and changes no other chain's bytes**: a chain that shares no sector with the written one
+(every other owner's chain, by single ownership — `C03_every_used_sector_owned_once`) reads the
+same bytes before and after -/
+theorem C07_chain_write_frame (kind : Phys.Init) (p : Phys.P) (ids ids2 : List Nat) (off : Nat) (bs : Phys.Bytes)
+    (ss : Phys.SS p) (hp : Phys.Present p ids) (nd : ids.Nodup) (hlen : off + bs.length ≤ ids.length * p.S)
+    (hdisj : ∀ id ∈ ids2, id ∉ ids) :
+    ∃ p', Phys.chainWrite kind (bs.length + 2) p ids off bs = .ok (p', ids) ∧
+      Phys.chainBytes p' ids2 = Phys.chainBytes p ids2 :=
+  Phys.chainWrite_frame kind p ids ids2 off bs ss hp nd hlen hdisj
+
+/-- non-vacuity: a two-sector chain [3, 1] of a four-sector file, 700 bytes written across the
+sector boundary at offset 300 -/
+example :
+    let p : Phys.P := { Phys.create false with numSectors := 4, sectors := #[Phys.zeroSector 512, Phys.zeroSector 512, Phys.zeroSector 512, Phys.zeroSector 512] }
+    Phys.SS p ∧ Phys.Present p [3, 1] ∧ [3, 1].Nodup ∧ 300 + 700 ≤ [3, 1].length * p.S := by
+  refine ⟨?_, ?_, by decide, by decide⟩
+  · intro i sec hi
+    simp only [Phys.create] at hi
+    have h4 : i < 4 ∨ 4 ≤ i := Nat.lt_or_ge i 4
+    rcases h4 with h | h
+    · have : i = 0 ∨ i = 1 ∨ i = 2 ∨ i = 3 := by omega
+      rcases this with rfl | rfl | rfl | rfl <;> (simp at hi; subst hi; rw [Phys.size_zeroSector]; rfl)
+    · simp [Array.getElem?_eq_none, h] at hi
+  · intro id hid
+    simp only [List.mem_cons, List.not_mem_nil, or_false] at hid
+    rcases hid with rfl | rfl <;> simp [Phys.create]
 
 end CfbVerif.Props.C07
